@@ -74,16 +74,32 @@ def _mask(
     return val.mask(null_mask)  # type: ignore [union-attr]
 
 
+def _at_most_one_null(null_mask) -> List[bool]:
+    """Nulls are duplicates of each other: a unique field holds one at most."""
+    seen = False
+    out = []
+    for masked in null_mask:
+        out.append(bool(masked) and not seen)
+        seen = seen or bool(masked)
+    return out
+
+
 @composite
-def null_field_masks(draw, strategy: Optional[SearchStrategy]):
+def null_field_masks(
+    draw, strategy: Optional[SearchStrategy], unique: bool = False
+):
     """Strategy for masking a column/index with null values.
 
     :param strategy: an optional hypothesis strategy. If specified, the
         pandas dtype strategy will be chained onto this strategy.
+    :param unique: whether the values have to be unique, in which case at most
+        one of them is masked.
     """
     val = draw(strategy)
     size = val.shape[0]
     null_mask = draw(st.lists(st.booleans(), min_size=size, max_size=size))
+    if unique:
+        null_mask = _at_most_one_null(null_mask)
     if isinstance(val, pd.Index):
         val = val.to_series()
         val = _mask(val, null_mask)
@@ -96,6 +112,7 @@ def null_dataframe_masks(
     draw,
     strategy: Optional[SearchStrategy],
     nullable_columns: Dict[str, bool],
+    unique_columns: Optional[Dict[str, bool]] = None,
 ):
     """Strategy for masking a values in a pandas DataFrame.
 
@@ -123,7 +140,12 @@ def null_dataframe_masks(
     )
     null_mask = draw(mask_st)
     for column in val:
-        val[column] = _mask(val[column], null_mask[column])
+        column_mask = null_mask[column]
+        if unique_columns and unique_columns.get(column):
+            column_mask = pd.Series(
+                _at_most_one_null(column_mask), index=column_mask.index
+            )
+        val[column] = _mask(val[column], column_mask)
     return val
 
 
@@ -854,7 +876,7 @@ def series_strategy(
         .map(partial(convert_dtype, col_dtype=pandera_dtype.type))
     )
     if nullable:
-        strategy = null_field_masks(strategy)
+        strategy = null_field_masks(strategy, unique=bool(unique))
 
     def undefined_check_strategy(strategy, check):
         """Strategy for checks with undefined strategies."""
@@ -955,7 +977,7 @@ def index_strategy(
     if name is not None:
         strategy = strategy.map(lambda index: index.rename(name))
     if nullable:
-        strategy = null_field_masks(strategy)
+        strategy = null_field_masks(strategy, unique=bool(unique))
     return strategy
 
 
@@ -1166,7 +1188,14 @@ def dataframe_strategy(
         strategy = strategy.map(partial(convert_dtypes, col_dtypes=col_dtypes))
 
         if size is not None and size > 0 and any(nullable_columns.values()):
-            strategy = null_dataframe_masks(strategy, nullable_columns)
+            strategy = null_dataframe_masks(
+                strategy,
+                nullable_columns,
+                {
+                    col_name: bool(col.unique)
+                    for col_name, col in expanded_columns.items()
+                },
+            )
 
         if index is not None:
             strategy = set_pandas_index(strategy, index)
